@@ -58,15 +58,15 @@ type sqCheck struct {
 }
 
 type sqTable struct {
-	Name         string    `json:"name"`
-	Cols         []sqCol   `json:"cols"`
-	PK           []string  `json:"pk,omitempty"`
-	PKAuto       bool      `json:"pk_auto,omitempty"`
-	Idxs         []sqIdx   `json:"idxs,omitempty"`
-	FKs          []sqFK    `json:"fks,omitempty"`
-	Checks       []sqCheck `json:"checks,omitempty"`
-	WithoutRowID bool      `json:"without_rowid,omitempty"`
-	Strict       bool      `json:"strict,omitempty"`
+	Name         string     `json:"name"`
+	Cols         []sqCol    `json:"cols"`
+	PK           []string   `json:"pk,omitempty"`
+	PKAuto       bool       `json:"pk_auto,omitempty"`
+	Idxs         []sqIdx    `json:"idxs,omitempty"`
+	FKs          []sqFK     `json:"fks,omitempty"`
+	Checks       []sqCheck  `json:"checks,omitempty"`
+	WithoutRowID bool       `json:"without_rowid,omitempty"`
+	Strict       bool       `json:"strict,omitempty"`
 	Uniques      [][]string `json:"uniques,omitempty"` // inline UNIQUE (...) table constraints
 }
 
